@@ -69,6 +69,9 @@ func xGuardSrc(kind string, bang bool) *core.ActionSource {
 		return &core.ActionSource{Interpreter: "ecmascript", Source: `return null;`}
 	case "atleast2":
 		return &core.ActionSource{Interpreter: "ecmascript", Source: `return (_.bindings["?v"] >= 2) ? _.bindings : null;`}
+	case "throwlow":
+		// written for values of at least 2: fails on anything else
+		return &core.ActionSource{Interpreter: "ecmascript", Source: `if (_.bindings["?v"] < 2) { throw new Error("unexpected value"); } return _.bindings;`}
 	}
 	return nil
 }
@@ -90,7 +93,7 @@ func xAccepts(o xOutput, m map[string]interface{}) bool {
 	switch o.guard {
 	case "reject":
 		return false
-	case "atleast2":
+	case "atleast2", "throwlow":
 		return hasV && v >= 2
 	}
 	return true
@@ -110,7 +113,12 @@ func xMatchesPattern(o xOutput, m map[string]interface{}) bool {
 	return true
 }
 
+// xDefaultTimeout: the session's default timeout (for steps without their own): longer or
+// shorter than the steps' own 300 ms / 1 s.
+var xDefaultTimeout = 2 * time.Second
+
 func runC19(c *sim.Ctx, t *testing.T) {
+	xDefaultTimeout = []time.Duration{2 * time.Second, 2 * time.Second, 200 * time.Millisecond}[c.Intn(3, "defaulttimeout")]
 	nsteps := 1 + c.Intn(3, "nsteps")
 	steps := make([]*xStep, nsteps)
 	for i := range steps {
@@ -123,7 +131,10 @@ func runC19(c *sim.Ctx, t *testing.T) {
 			}
 			if o.withVar {
 				o.bang = c.Chance(1, 3, "bangvar")
-				o.guard = []string{"", "accept", "atleast2", "atleast2"}[c.Intn(4, "guard")]
+				o.guard = []string{"", "accept", "atleast2", "atleast2", "throwlow"}[c.Intn(5, "guard")]
+				if o.guard == "throwlow" {
+					o.bang = false
+				}
 			} else {
 				o.guard = []string{"", "", "accept"}[c.Intn(3, "guard2")]
 			}
@@ -174,7 +185,7 @@ func runC19(c *sim.Ctx, t *testing.T) {
 			k := c.Intn(req, "latewhich")
 			to := st.timeout
 			if to == 0 {
-				to = 2 * time.Second
+				to = xDefaultTimeout
 			}
 			st.lines[k].delay = to + 50*time.Millisecond
 			st.lines[k].why += " (late)"
@@ -220,7 +231,7 @@ func runC19(c *sim.Ctx, t *testing.T) {
 			// one output's only line carries a value its guard rejects
 			found := false
 			for j, o := range st.outputs {
-				if o.guard == "atleast2" {
+				if o.guard == "atleast2" || o.guard == "throwlow" {
 					for k := range st.lines {
 						if strings.Contains(st.lines[k].text, `"k":"`+o.key+`"`) {
 							st.lines[k].text = line(o, 1)
@@ -242,7 +253,7 @@ func runC19(c *sim.Ctx, t *testing.T) {
 	}
 
 	// ---- the session
-	sess := &Session{DefaultTimeout: 2 * time.Second, Interpreters: core.InterpretersMap{"ecmascript": ecmascript.NewInterpreter()}}
+	sess := &Session{DefaultTimeout: xDefaultTimeout, Interpreters: core.InterpretersMap{"ecmascript": ecmascript.NewInterpreter()}}
 	for i, st := range steps {
 		iop := IO{Inputs: []interface{}{fmt.Sprintf(`{"go":%d}`, i)}, Timeout: st.timeout}
 		switch c.Intn(4, "waits") {
@@ -428,7 +439,7 @@ func xRunOnce(c *sim.Ctx, t *testing.T, sess *Session, steps []*xStep, runNo int
 	for i, st := range steps {
 		to := st.timeout
 		if to == 0 {
-			to = 2 * time.Second
+			to = xDefaultTimeout
 		}
 		lastNeeded := -1
 		for _, o := range st.outputs {
